@@ -87,6 +87,9 @@ def oracle(case, resp):
         return None
     if resp.get("code") != 0:
         return "well-formed input rejected or crashed: code %s %s %s" % (resp.get("code"), resp.get("panic", ""), resp.get("msg", ""))
+    if resp.get("earlier_changed"):
+        return ("the header block an earlier marshalHeaders call returned (%s...) changed when this map was marshalled: results "
+                "of the writer are not independent values" % resp["earlier_changed"][:40])
     want = dict(case["pairs"])
     if k in ("write", "write_ctx", "write_resp", "py_write"):
         out = bytes.fromhex(resp["out"])
